@@ -93,6 +93,78 @@ theorem ids_distinct_str (urn : Option String) (s : St) (ts : List Int) :
 
 example : (run step init [10, 10, 9, 10]).map (fmt (some "u")) = ["u_10_0", "u_10_1", "u_10_2", "u_10_3"] := by decide
 
+/-! ### several generators (one per device, as `BoboSetupSimpleDistributed` builds them) -/
+
+/-- ids of two generators with different prefixes, each in any state and under any clock sequence of its own, are
+pairwise distinct as one combined list. -/
+theorem ids_distinct_two_generators {p₁ p₂ : Option String} (hp : p₁ ≠ p₂) (s₁ s₂ : St) (ts₁ ts₂ : List Int) :
+    ((run step s₁ ts₁).map (fmt p₁) ++ (run step s₂ ts₂).map (fmt p₂)).Pairwise (· ≠ ·) := by
+  rw [List.pairwise_append]
+  refine ⟨ids_distinct_str p₁ s₁ ts₁, ids_distinct_str p₂ s₂ ts₂, ?_⟩
+  intro a ha b hb
+  simp only [List.mem_map] at ha hb
+  obtain ⟨o₁, _, rfl⟩ := ha
+  obtain ⟨o₂, _, rfl⟩ := hb
+  exact prefix_disjoint hp o₁ o₂
+
+/-- one generator of a cluster: its prefix, its state, the clock readings of its calls. -/
+abbrev GenRun := Option String × St × List Int
+
+def GenRun.ids (g : GenRun) : List String := (run step g.2.1 g.2.2).map (fmt g.1)
+
+/-- **C16 (cluster)**: any number of generators whose prefixes are pairwise different — each with its own state and
+its own (unsynchronised, possibly backwards-stepping) clock — never hand out the same id twice between them. -/
+theorem ids_distinct_cluster (gs : List GenRun) (hp : gs.Pairwise (fun a b => a.1 ≠ b.1)) :
+    (gs.flatMap GenRun.ids).Pairwise (· ≠ ·) := by
+  rw [List.pairwise_flatMap]
+  refine ⟨fun g _ => ids_distinct_str g.1 g.2.1 g.2.2, hp.imp ?_⟩
+  intro a b hab x hx y hy
+  simp only [GenRun.ids, List.mem_map] at hx hy
+  obtain ⟨o₁, _, rfl⟩ := hx
+  obtain ⟨o₂, _, rfl⟩ := hy
+  exact prefix_disjoint hab o₁ o₂
+
+example : ([(some "a", init, [5, 5, 4]), (some "a_5", init, [0, 0]), (none, init, [5])] : List GenRun).flatMap GenRun.ids
+    = ["a_5_0", "a_5_1", "a_5_2", "a_5_0_1", "a_5_0_2", "5_0"] := by decide
+
+/-- the remembered second is never behind a clock reading already seen: after the calls, `last` is at least every
+reading and at least the initial `last` (the logical second only moves forward). -/
+theorem step_last_ge (s : St) (now : Int) : s.last ≤ (step s now).1.last ∧ now ≤ (step s now).1.last := by
+  unfold step; split <;> simp <;> omega
+
+def final (s : St) : List Int → St
+  | [] => s
+  | t :: ts => final (step s t).1 ts
+
+theorem final_last_ge (ts : List Int) : ∀ s : St, s.last ≤ (final s ts).last ∧ ∀ t ∈ ts, t ≤ (final s ts).last := by
+  induction ts with
+  | nil => intro s; simp [final]
+  | cons t ts ih =>
+    intro s
+    have h1 := step_last_ge s t
+    have h2 := ih (step s t).1
+    refine ⟨by simp only [final]; omega, ?_⟩
+    intro u hu
+    simp only [List.mem_cons] at hu
+    simp only [final]
+    rcases hu with rfl | hu
+    · omega
+    · exact h2.2 u hu
+
+/-- every second that appears in an id is either the initial `last` or a clock reading that was really taken: the
+generator never invents a time. -/
+theorem run_seconds_from_clock (ts : List Int) : ∀ (s : St), ∀ o ∈ run step s ts, o.1 = s.last ∨ o.1 ∈ ts := by
+  induction ts with
+  | nil => intro s o h; simp [run] at h
+  | cons t ts ih =>
+    intro s o h
+    simp only [run, List.mem_cons] at h
+    rcases h with h | h
+    · subst h; unfold step; split <;> simp
+    · rcases ih _ o h with h' | h'
+      · rw [h']; unfold step; split <;> simp
+      · exact Or.inr (List.mem_cons_of_mem _ h')
+
 /-- **`generate()` is one atomic step for any number of calling threads**: the generator's remembered second and
 counter (and every other field of a lock-owning class written after construction) are read and written only with the
 object's own lock held — the table of exceptions generated from the source (translate/locks.py, following the call
